@@ -572,6 +572,17 @@ Plan gen_c10(uint64_t seed, bool th) {
       else if (st < 50) g.add(g.mk("raw", ni, {-1, 0}, {std::string((size_t)g.r.range(1, 60), (char)g.r.next())})); // garbage before auth
       else if (st < 58) g.add(g.mk("raw", ni, {-1, 0}, {std::string(1, '\0') + "AUTH " + std::string((size_t)g.r.range(100, 20000), 'A') + "\r\n"}));
       else if (st < 64) g.add(g.mk("raw", ni, {-1, 0}, {std::string(1, '\0') + "BEGIN\r\n" + valid_message_bytes(g, 1)}));
+      else if (st < 76) {
+        // handshake abuse: other mechanisms, wrong identities, command salad — then possibly BEGIN and a message
+        static const char *lines[] = {"AUTH ANONYMOUS\r\n", "AUTH ANONYMOUS 616e6f6e\r\n", "AUTH EXTERNAL 31303030\r\n", "AUTH EXTERNAL\r\n", "DATA\r\n", "DATA 30\r\n",
+                                      "AUTH DBUS_COOKIE_SHA1 726f6f74\r\n", "AUTH DBUS_COOKIE_SHA1\r\n", "CANCEL\r\n", "ERROR\r\n", "ERROR \"x\"\r\n", "NEGOTIATE_UNIX_FD\r\n",
+                                      "AUTH KERBEROS_V4 00\r\n", "AUTH\r\n", "FOO bar\r\n", "AUTH EXTERNAL 30\r\n", "DATA zz\r\n", "\r\n", "AUTH EXTERNAL 30\n"};
+        std::string b(1, '\0');
+        int n = (int)g.r.range(1, 7);
+        for (int k = 0; k < n; k++) b += lines[g.r.below(19)];
+        if (g.r.pct(70)) { b += "BEGIN\r\n"; if (g.r.pct(60)) b += valid_message_bytes(g, 1); }
+        g.add(g.mk("raw", ni, {g.r.pct(80) ? -1 : (int64_t)g.r.range(1, 20), 0}, {b}));
+      }
       else { g.add(g.mk("auth", ni, {1})); if (g.r.pct(75)) { g.add(g.mk("hello", ni, {-1})); hserial.back() = 2; } }
       g.pump();
       continue;
@@ -751,7 +762,23 @@ Plan gen_c06(uint64_t seed, bool th) {
       }
     }
     // a permissive base in most runs, so that the random rules are what decides
-    if (g.r.pct(80)) {
+    int base = (int)g.r.below(100);
+    if (base < 25) {
+      // sending is allowed only towards the owners of one or two names (exact or prefix), receiving — also
+      // eavesdropping — is open: per-recipient send decisions and ownership-based matching decide everything
+      { pol::Rule r = prule(true, pol::Rule::SEND); r.peer = pol::Opt("org.freedesktop.DBus"); b.rules.push_back(r); }
+      { pol::Rule r = prule(true, pol::Rule::RECEIVE); r.star_peer = true; r.eavesdrop = 1; r.requested_reply = 0; b.rules.push_back(r); }
+      { pol::Rule r = prule(true, pol::Rule::OWN); r.own = "*"; b.rules.push_back(r); }
+      int n = (int)g.r.range(1, 2);
+      for (int i = 0; i < n; i++) {
+        pol::Rule r = prule(true, pol::Rule::SEND);
+        if (g.r.pct(70)) r.peer = pol::Opt(g.sh.names[g.r.below(g.sh.names.size())]); else r.peer_prefix = pol::Opt("com.example.a");
+        if (g.r.pct(30)) r.eavesdrop = 1;
+        b.rules.push_back(r);
+      }
+      { pol::Rule r = prule(true, pol::Rule::SEND); r.type = pol::Opt("method_return"); b.rules.push_back(r); }
+      { pol::Rule r = prule(true, pol::Rule::SEND); r.type = pol::Opt("error"); b.rules.push_back(r); }
+    } else if (base < 85) {
       { pol::Rule r = prule(true, pol::Rule::SEND); r.star_peer = true; if (g.r.pct(50)) r.requested_reply = 0; b.rules.push_back(r); }
       { pol::Rule r = prule(true, pol::Rule::RECEIVE); r.star_peer = true; if (g.r.pct(50)) r.requested_reply = 0; if (g.r.pct(40)) r.eavesdrop = 1; b.rules.push_back(r); }
       { pol::Rule r = prule(true, pol::Rule::OWN); r.own = "*"; b.rules.push_back(r); }
